@@ -15,6 +15,12 @@ HOST_NAMES = {
     'E': [],
     'HL': [[1, 2], {'m': [['k', [3]]]}, 'x'],
     'DL': [{'m': [['k', [1]], ['n', 1]]}, {'m': [['k', [2]]]}, {'m': [['k', [3]], ['z', {'m': [['k', [4]]]}]]}],
+    # scale: past the sizes where a "fast path for big inputs" would start (256-element list with duplicates and a nested
+    # list in the middle, 100 ascending string keys, 60 strings that render to well over 1000 characters, a 1500-character text)
+    'L300': [(i * 7) % 50 for i in range(150)] + [[1, 2]] + [(i * 3) % 40 for i in range(149)],
+    'D100': {'m': [['k%03d' % i, i % 9] for i in range(100)]},
+    'SL60': ['line %02d of the report text' % i for i in range(60)],
+    'S2K': 'ab1 ' * 375,
     '%rec%': {'m': [['customer', {'m': [['name', 'Ann'], ['tags', ['a']]]}], ['total', {'d': '9.5'}]]},
     '%msg%': 'hello',
     '%n%': {'d': '1.25'},
@@ -84,22 +90,22 @@ def shapes(r, extra_names=(), table_names=(), no_functions=False):
 
 
 KNOWN_SHAPES = {
-    'sorted': [['L'], ['LS'], ['D'], ['L', 'lam1'], ['L', 'lam1', 'true'], ['D', 'lam2'], ['L', 'none', 'true'], ['NL', 'lam1'], ['HL']],
-    'reversed': [['L'], ['S'], ['NL'], ['HL']],
+    'sorted': [['D100'], ['L'], ['LS'], ['D'], ['L', 'lam1'], ['L', 'lam1', 'true'], ['D', 'lam2'], ['L', 'none', 'true'], ['NL', 'lam1'], ['HL']],
+    'reversed': [['L300'], ['L'], ['S'], ['NL'], ['HL']],
     'shuffle': [['L'], ['NL'], ['HL'], ['E']],
     'map': [['L', 'lam1'], ['S', 'lam1'], ['D', 'lam2'], ['NL', 'lam1'], ['HL', 'lam1'], ['DL', 'lam1']],
     'filter': [['L', 'lam1'], ['NL', 'lam1'], ['HL', 'lam1']],
     'reduce': [['L', 'lam2'], ['LS', 'lam2'], ['NL', 'lam2'], ['DL', 'lam2'], ['DL', 'lam2']],
     'enumerate': [['L'], ['NL'], ['S']],
-    'keys': [['D'], ['ND']], 'values': [['D'], ['ND']], 'items': [['D'], ['ND']],
+    'keys': [['D'], ['ND'], ['D100']], 'values': [['D'], ['ND'], ['D100']], 'items': [['D'], ['ND'], ['D100']],
     'join': [['LS'], ['LS', 'str'], ['L', 'str'], ['NL', 'str']],
     'split': [['S'], ['S', 'str'], ['S', 'str', 'num']],
-    'sum': [['L'], ['NL'], ['E']], 'min': [['L'], ['N', 'I'], ['NL']], 'max': [['L'], ['N', 'I'], ['LS']],
+    'sum': [['L'], ['NL'], ['E'], ['L300']], 'min': [['L'], ['N', 'I'], ['NL']], 'max': [['L'], ['N', 'I'], ['LS']],
     'get': [['D', 'str'], ['D', 'str', 'L'], ['ND', 'str'], ['D', 'num'], ['D', 'str', 'NL']],
-    'index_of': [['L', 'num'], ['LS', 'str'], ['NL', 'L'], ['HL', 'str']],
-    'pretty': [['D'], ['L'], ['N'], ['ND'], ['NL'], ['D', 'str'], ['ND', 'num'], ['ND', 'str'], ['D', 'num'], ['L', 'num'], ['ND', 'L']],
+    'index_of': [['L', 'num'], ['LS', 'str'], ['NL', 'L'], ['HL', 'str'], ['L300', 'num'], ['L300', 'num']],
+    'pretty': [['SL60'], ['SL60', 'str'], ['D'], ['L'], ['N'], ['ND'], ['NL'], ['D', 'str'], ['ND', 'num'], ['ND', 'str'], ['D', 'num'], ['L', 'num'], ['ND', 'L']],
     'len': [['L'], ['D'], ['S'], ['NL']], 'str': [['L'], ['D'], ['N'], ['NL']],
-    'match': [['S', 'pat'], ['S', 'pat', 'str']], 'match_groups': [['S', 'pat']], 'match_all': [['S', 'pat'], ['S', 'pat', 'str']],
+    'match': [['S', 'pat'], ['S', 'pat', 'str']], 'match_groups': [['S', 'pat']], 'match_all': [['S', 'pat'], ['S', 'pat', 'str'], ['S2K', 'pat']],
     'lower': [['S']], 'upper': [['S']], 'strip': [['S'], ['S', 'str']], 'replace': [['S', 'str', 'str'], ['S', 'str', 'str', 'num']],
     'startswith': [['S', 'str']], 'endswith': [['S', 'str']],
     'list': [['L', 'NL'], ['D']], 'dict': [[], ['D'], ['ND']],
